@@ -1837,3 +1837,13 @@ MA('C12', 'FISTA swaps buffers instead of copying the old iterate',
    'odl/solvers/nonsmooth/proximal_gradient_solvers.py',
    'accelerated_proximal_gradient', 'y.assign(x)',
    'x_old = x\nx = x.space.element()', 'R9')
+MA('C18', 'plan direction derived from the class instead of the sign',
+   'odl/trafos/fourier.py', 'DiscreteFourierTransformBase.init_fftw_plan',
+   "direction = 'forward' if self.sign == '-' else 'backward'",
+   "direction = 'backward' if isinstance(self, DiscreteFourierTransformInverse) else 'forward'",
+   'R3p')
+MA('C18', 'real input with sign + computed as the conjugate of the forward FFT',
+   'odl/trafos/fourier.py', 'FourierTransform._call_numpy',
+   'out = np.fft.ifftn(preproc, axes=self.axes)',
+   'out = np.conj(np.fft.fftn(preproc, axes=self.axes)) / np.prod(np.take(self.domain.shape, self.axes)) if self.domain.field == RealNumbers() else np.fft.ifftn(preproc, axes=self.axes)',
+   'unshifted')
